@@ -244,7 +244,7 @@ def make_perf_spec(rng, size=1.0, kind=None, hostile=None):
     return {"kind": kind, "hostile": hostile, "ensure_unique_tracks": rng.random() < 0.6, "np_ppq": np_ppq,
             "as_tuple": rng.random() < 0.2, "ppq": ppq, "mpq": mpq, "merge_save": merge_save, "merge_load": merge_load,
             "out": rng.choice(["none", "path", "path", "bytes"]), "loader": rng.choice(["midi", "midi", "dispatch"]),
-            "np_times": rng.random() < 0.15, "parts": parts}
+            "np_times": rng.choice([False] * 8 + ["f8", "f4"]), "parts": parts}
 
 
 def build_performance(spec):
@@ -255,8 +255,15 @@ def build_performance(spec):
     parts = copy.deepcopy(spec["parts"])
     for pi, p in enumerate(parts):
         if spec.get("np_times"):
+            # numpy scalars as times (single precision is what PerformedPart.from_note_array produces)
+            ty = np.float32 if spec["np_times"] == "f4" else np.float64
             for n in p["notes"]:
-                n["note_on"], n["note_off"] = np.float64(n["note_on"]), np.float64(n["note_off"])
+                n["note_on"], n["note_off"] = ty(n["note_on"]), ty(n["note_off"])
+                if n["note_off"] < n["note_on"]:
+                    n["note_off"] = n["note_on"]
+            if ty is np.float32:
+                for c_ in p["controls"]:
+                    c_["time"] = ty(c_["time"])
         for m in p["meta_other"]:
             if "data" in m:
                 m["data"] = tuple(m["data"])
